@@ -88,7 +88,7 @@ def query (num? : String → Option α) (shw : α → String) (fl : α → Int) 
       match kind, ns with
       | "getcell", [x, y] => pure (showRes (showOpt (fun (c : α × α) => s!"{shw c.1},{shw c.2}")) (getCellR ix (x, y)))
       | "inter", [a, b, c, d, e, f, g, h] => pure (showBool (isSegmentIntersects ⟨a, b, c, d⟩ ⟨e, f, g, h⟩))
-      | "cross", [ax, ay, bx, b_y] => pure (showCells (cellsCross fl (ax, ay) (bx, b_y)))
+      | "cross", [ax, ay, bx, b_y] => pure (showCells (cellsCross fl ix.csize ix.lsize (ax, ay) (bx, b_y)))
       | "gcross", [x1, y1, x2, y2] =>
         match getCellR ix (x1, y1) with
         | .error e => pure (showErr e)
@@ -97,7 +97,7 @@ def query (num? : String → Option α) (shw : α → String) (fl : α → Int) 
           | .error e => pure (showErr e)
           | .ok o2 =>
             match o1, o2 with
-            | some p1, some p2 => pure (showCells (cellsCross fl p1 p2))
+            | some p1, some p2 => pure (showCells (cellsCross fl ix.csize ix.lsize p1 p2))
             | _, _ => pure "none"
       | "pt", [x, y] => pure (showRes showNats (requestPoint fl ix (x, y)))
       | "seg", [x1, y1, x2, y2] => pure (showRes showNats (requestSeg fl ix (x1, y1) (x2, y2)))
